@@ -441,11 +441,22 @@ def main():
             ev['nth'] = nth_in_op[key]
         events.append(ev)
         if opened and mutating:
-            last_by_unit[ev.get('unit', '')] = [ev['act'], ev.get('nth', 0), inflight]
+            last_by_unit[ev.get('unit', '')] = [ev['act'], ev.get('nth', 0), ev['op']]
             new_point(ev)
 
     if not opened:
         raise SystemExit("strace2fs: no OPEN marker in the log")
+    # how many syscalls of the same action the same step issued on the same unit in total:
+    # `last` entries become [act, nth, step, total] (nth < total: the step was interrupted
+    # inside its sequence of such syscalls on that unit)
+    totals = {}
+    for ev in events:
+        if ev.get('kind') == 'fs' and ev.get('mut') and 'nth' in ev:
+            k = (ev.get('op', 0), ev.get('unit', ''), ev['act'])
+            totals[k] = max(totals.get(k, 0), ev['nth'])
+    for p in points:
+        for unit, l in p['last'].items():
+            p['last'][unit] = [l[0], l[1], l[2], totals.get((l[2], unit, l[0]), l[1])]
     json.dump(events, open(os.path.join(a.out, 'events.json'), 'w'))
     json.dump({'points': points, 'closed': closed, 'acked': acked}, open(os.path.join(a.out, 'points.json'), 'w'))
     shutil.rmtree(cur, ignore_errors=True)
